@@ -11,6 +11,7 @@ type PartSpec struct {
 	Probes        []string
 	FsPoints      bool
 	ModRequires   []string
+	ImportMap     map[string]string
 	Race          bool
 	Shards        int
 	ProcsPerShard int
@@ -80,4 +81,22 @@ func init() {
 			ModRequires: []string{"github.com/anishathalye/porcupine@v1.3.0"},
 			Args: "bound=2", ArgsThorough: "bound=3"}},
 	})
+}
+
+var quicMap = map[string]string{"github.com/quic-go/quic-go": "github.com/sheerbytes/sheerbytes/internal/verif/venv/vquic"}
+
+func xferPart(name, mode string, shards int) *PartSpec {
+	return &PartSpec{Name: name, Harness: "xfer", Instrument: true, Shards: shards, GoMaxProcs: 1, ImportMap: quicMap,
+		Args: "mode=" + mode, Timeout: 45 * time.Minute}
+}
+
+var xferAssumptions = []string{
+	"QUIC is replaced by the vquic environment model (stream visibility on first frame of this-or-higher stream, FIN/close/error semantics, data loss on close); the repository's own transferquic and multiConn wrappers run unmodified on top of it",
+	"the scheduler preempts at channel, select, contended-lock, timer, goroutine, transport and (where enabled) file-system operations; plain-variable data races are outside the exploration",
+	"delay bounding: executions needing more deviations than the stated bound are not covered; virtual time: timers fire when nothing else can run or as a cost-1 deviation",
+}
+
+func init() {
+	register("C03", &CheckSpec{Level: "model_checking", Assumptions: xferAssumptions, Parts: []*PartSpec{xferPart("c03", "c03", 16)}})
+	register("C01", &CheckSpec{Level: "model_checking", Assumptions: xferAssumptions, Parts: []*PartSpec{xferPart("c01", "c01", 16)}})
 }
